@@ -463,6 +463,8 @@ pub struct JusticeOracle {
 	pub v_txs: Vec<Transaction>,
 	/// (c): per exact set of contested inputs the last issued version: (fee, feerate sat/kw, txid)
 	issued: BTreeMap<Vec<OutPoint>, (u64, f64, Txid)>,
+	/// the same as of the last moment V's monitor was persisted (a reloaded V can only continue from there)
+	issued_durable: BTreeMap<Vec<OutPoint>, (u64, f64, Txid)>,
 	/// announced `SpendableOutputs` descriptors by outpoint
 	pub descriptors: BTreeMap<OutPoint, SpendableOutputDescriptor>,
 	pub stats: JStats,
@@ -474,7 +476,7 @@ fn fail(oracle: &str, detail: String) -> Failure {
 
 impl JusticeOracle {
 	pub fn new(sim: &Sim, v: usize, chan: ChannelId, tk: TkInfo) -> JusticeOracle {
-		let mut o = JusticeOracle { v, chan, tk, cur_log: 0, v_txids: BTreeSet::new(), v_txs: vec![], issued: BTreeMap::new(), descriptors: BTreeMap::new(), stats: JStats::default() };
+		let mut o = JusticeOracle { v, chan, tk, cur_log: 0, v_txids: BTreeSet::new(), v_txs: vec![], issued: BTreeMap::new(), issued_durable: BTreeMap::new(), descriptors: BTreeMap::new(), stats: JStats::default() };
 		// broadcasts of V before the cheat (e.g. its own force close) still count as V's transactions
 		for (_, e) in sim.log.iter() {
 			if let SEvent::Broadcast { node, tx, .. } = e {
@@ -485,6 +487,17 @@ impl JusticeOracle {
 		}
 		o.cur_log = sim.log.len();
 		o
+	}
+
+	/// V's monitor has just been persisted with everything it issued so far (the ChainMonitor persists a
+	/// monitor with pending claims after every chain notification; `rebroadcast_pending_claims` does not).
+	pub fn mark_durable(&mut self) {
+		self.issued_durable = self.issued.clone();
+	}
+
+	/// V was reloaded from its persisted monitor: fee monotonicity continues from the persisted state.
+	pub fn on_reload(&mut self) {
+		self.issued = self.issued_durable.clone();
 	}
 
 	fn prevout(&self, sim: &Sim, op: &OutPoint) -> Option<TxOut> {
@@ -685,7 +698,8 @@ impl JusticeOracle {
 					j.input.iter().any(|i| i.previous_output == *t)
 						&& j.input.iter().any(|i| i.previous_output != *t && sim.chain.spent_by.get(&i.previous_output).map(|sp| !self.v_txids.contains(sp)).unwrap_or(false))
 				});
-				if split {
+				let refused = sim.w.nodes[self.v].logger.lines.lock().unwrap().keys().any(|(_, l)| l.contains("Can't bump new claiming tx") && l.contains("below dust threshold"));
+				if split && refused {
 					return Err(fail("x-keeps-output", format!("output {} ({} sat) of the revoked commitment: V's aggregated claim was invalidated when X confirmed a second-stage transaction on another input, and V never re-issued a claim for {} ({} sat at stake)", op, val, t, self.prevout(sim, t).map(|o| o.value.to_sat()).unwrap_or(0))).with_key("x-keeps-output/abandoned-after-split"));
 				}
 				return Err(fail("x-keeps-output", format!("output {} ({} sat) of the revoked commitment was never taken by V: {} is unspent at the end (X's CSV {} would let X sweep it)", op, val, t, self.tk.contest_delay)).with_key(if t == op { "x-keeps-output/commitment" } else { "x-keeps-output/second-stage" }));
